@@ -135,6 +135,12 @@ lyplg_type_store_ipv6_address_no_zone(const struct ly_ctx *ctx, const struct lys
     ret = lyplg_type_check_hints(hints, value, value_len, type->basetype, NULL, err);
     LY_CHECK_GOTO(ret, cleanup);
 
+    /* the value is handled as a string, it must not contain a NULL byte */
+    if (value_len && memchr(value, '\0', value_len)) {
+        ret = ly_err_new(err, LY_EVALID, LYVE_DATA, NULL, NULL, "Invalid character 0x00.");
+        goto cleanup;
+    }
+
     /* get the network-byte order address, validates the value */
     ret = ipv6addressnozone_str2ip(value, value_len, options, &val->addr, err);
     LY_CHECK_GOTO(ret, cleanup);
